@@ -3,7 +3,11 @@ package props
 import (
 	"bytes"
 	"fmt"
+	"io"
+	"sort"
 	"strings"
+
+	"github.com/foxglove/mcap/go/mcap"
 
 	"verif/sim/internal/drive"
 	"verif/sim/internal/model"
@@ -78,6 +82,76 @@ func runSeq(mode readerMode, img []byte, cfg scen.Cfg, del scen.Delivery, fault 
 		res.terminal = ir.Terminal()
 		res.err = ir.FirstErr()
 		res.panic = ir.Panic
+		res.srcStats = src.St
+	case "info", "random_access":
+		src := simdisk.NewSeekSource(img, del, fault)
+		res.terminal = "eof"
+		pi := drive.Guard(func() {
+			rd, err := mcap.NewReader(src)
+			if err != nil {
+				res.terminal, res.err = "open_error", err
+				return
+			}
+			defer rd.Close()
+			info, err := rd.Info()
+			if err != nil {
+				res.terminal, res.err = "error", err
+				return
+			}
+			if mode == "info" {
+				var ids []int
+				for id := range info.Schemas {
+					ids = append(ids, int(id))
+				}
+				sort.Ints(ids)
+				for _, id := range ids {
+					res.recs = append(res.recs, drive.SchemaRec(info.Schemas[uint16(id)]))
+				}
+				ids = ids[:0]
+				for id := range info.Channels {
+					ids = append(ids, int(id))
+				}
+				sort.Ints(ids)
+				for _, id := range ids {
+					res.recs = append(res.recs, drive.ChannelRec(info.Channels[uint16(id)]))
+				}
+				res.recs = append(res.recs, &model.Rec{Kind: "counts", Name: fmt.Sprintf("chunks=%d attachments=%d metadata=%d stats=%v", len(info.ChunkIndexes), len(info.AttachmentIndexes), len(info.MetadataIndexes), info.Statistics != nil)})
+				return
+			}
+			for _, ai := range info.AttachmentIndexes {
+				ar, err := rd.GetAttachmentReader(ai.Offset)
+				if err != nil {
+					res.terminal, res.err = "error", err
+					return
+				}
+				r := &model.Rec{Kind: "attachment", LogTime: ar.LogTime, PubTime: ar.CreateTime, Name: ar.Name, Enc: ar.MediaType}
+				data, err := io.ReadAll(ar.Data())
+				r.Data = data
+				if err != nil {
+					r.Kind = "attachment_partial"
+					res.recs = append(res.recs, r)
+					res.terminal, res.err = "error", err
+					return
+				}
+				res.recs = append(res.recs, r)
+				if _, err := ar.ParsedCRC(); err != nil {
+					res.terminal, res.err = "error", err
+					return
+				}
+			}
+			for _, mi := range info.MetadataIndexes {
+				md, err := rd.GetMetadata(mi.Offset)
+				if err != nil {
+					res.terminal, res.err = "error", err
+					return
+				}
+				res.recs = append(res.recs, drive.MetadataRec(md))
+			}
+		})
+		res.panic = pi
+		if pi != nil {
+			res.terminal = "panic"
+		}
 		res.srcStats = src.St
 	default:
 		panic("harness: unknown reader mode " + string(mode))
